@@ -68,6 +68,10 @@ pub(crate) mod verif_request {
             }
         }
         let n = ref_find(&rm, T_NONC, nmax)?;
+        // a well-formed IETF request carries a 32-byte nonce (it is echoed in the reply)
+        if rm.end[n] - rm.start[n] != 32 {
+            return None;
+        }
         Some((12 + rm.hdr + rm.start[n], 12 + rm.hdr + rm.end[n]))
     }
 
@@ -80,7 +84,7 @@ pub(crate) mod verif_request {
     }
 
     // ------------------------------------------------------------------ G1: the size gate
-    //@ family c07_gate props=C07,C08 mode=strict mod=request::verif_request needs=src/message.rs
+    //@ family c07_gate props=C07 mode=strict mod=request::verif_request needs=src/message.rs
     //@ harness c07_gate_out_of_range tier=quick shape="num_bytes any usize outside 1024..=1500, parsers stubbed to accept everything" must_cover=COVER:too-short,COVER:too-long
     /// The inner parsers are replaced by stubs that accept *every* datagram, so the size gate is
     /// the only thing that can reject: the assertion fails for any size the gate lets through.
@@ -132,13 +136,17 @@ pub(crate) mod verif_request {
         let mut buf: [u8; L] = vany_bytes::<L>();
         buf[0..4].copy_from_slice(&n.to_le_bytes());
         let r = nonce_from_classic_request(&buf);
+        // well-formed classic request: decodes, has NONC, and NONC is the protocol's 64 bytes
         let want = match ref_decode(&buf, nmax) {
-            Some(rm) => ref_find(&rm, T_NONC, nmax).map(|i| (rm.hdr + rm.start[i], rm.hdr + rm.end[i])),
+            Some(rm) => match ref_find(&rm, T_NONC, nmax) {
+                Some(i) if rm.end[i] - rm.start[i] == 64 => Some((rm.hdr + rm.start[i], rm.hdr + rm.end[i])),
+                _ => None,
+            },
             None => None,
         };
         vcover!(r.is_ok(), "COVER:accepted");
         vcover!(r.is_err(), "COVER:rejected");
-        vassert!(r.is_ok() == want.is_some(), "VERIF:C07:classic-accepted-iff-wellformed-with-NONC");
+        vassert!(r.is_ok() == want.is_some(), "VERIF:C07:classic-accepted-iff-wellformed-with-64-byte-NONC");
         if let (Ok((nonce, ver)), Some(range)) = (&r, want) {
             vassert!(*ver == Version::Google, "VERIF:C09:unframed-request-is-classic");
             check_nonce(nonce, &buf, range);
@@ -158,13 +166,17 @@ pub(crate) mod verif_request {
         };
     }
     //@ family c07_classic props=C07,C08,C09 mode=strict mod=request::verif_request needs=src/message.rs must_cover=COVER:rejected
-    //@ harness c07_classic_n1_l12 tier=quick shape="unframed, count=1 len=12, tag+value symbolic" must_cover=COVER:accepted,COVER:rejected
+    //@ harness c07_classic_n1_l12 tier=quick shape="unframed, count=1 len=12, tag+value symbolic (too short for a nonce)"
     c07_classic!(c07_classic_n1_l12, 1, 12, 1, 6);
-    //@ harness c07_classic_n2_l24 tier=quick shape="unframed, count=2 len=24, offsets/tags/values symbolic" must_cover=COVER:accepted,COVER:rejected
+    //@ harness c07_classic_n1_l72 tier=quick shape="unframed, count=1 len=72: tag and 64 value bytes symbolic" must_cover=COVER:accepted,COVER:rejected
+    c07_classic!(c07_classic_n1_l72, 1, 72, 1, 6);
+    //@ harness c07_classic_n2_l24 tier=quick shape="unframed, count=2 len=24, offsets/tags/values symbolic (too short for a nonce)"
     c07_classic!(c07_classic_n2_l24, 2, 24, 2, 6);
+    //@ harness c07_classic_n2_l84 tier=quick shape="unframed, count=2 len=84: offset, tags, 68 value bytes symbolic (nonce 64 + 4 or other splits)" must_cover=COVER:accepted,COVER:rejected timeout=600
+    c07_classic!(c07_classic_n2_l84, 2, 84, 2, 6);
     //@ harness c07_classic_n0_l8 tier=quick shape="unframed, count=0 len=8"
     c07_classic!(c07_classic_n0_l8, 0, 8, 0, 6);
-    //@ harness c07_classic_n3_l32 tier=thorough shape="unframed, count=3 len=32" must_cover=COVER:accepted,COVER:rejected required=no
+    //@ harness c07_classic_n3_l32 tier=thorough shape="unframed, count=3 len=32" required=no
     c07_classic!(c07_classic_n3_l32, 3, 32, 3, 7);
 
     // ------------------------------------------------------------------ G2: accept logic, IETF (fully symbolic small frames)
@@ -199,13 +211,15 @@ pub(crate) mod verif_request {
     //@ family c07_rfc props=C07,C08,C09,C12 mode=strict mod=request::verif_request needs=src/message.rs must_cover=COVER:rejected
     //@ harness c07_rfc_n1_l24 tier=quick shape="frame + count=1 payload 12 B; frame length, tag, value symbolic"
     c07_rfc!(c07_rfc_n1_l24, 1, 24, 1, 8);
-    //@ harness c07_rfc_n2_l36 tier=quick timeout=600 shape="frame + count=2 payload 24 B; frame length, offsets, tags, values symbolic" must_cover=COVER:accepted,COVER:rejected
+    //@ harness c07_rfc_n2_l36 tier=quick shape="frame + count=2 payload 24 B; frame length, offsets, tags, values symbolic (too short for a nonce)" timeout=600
     c07_rfc!(c07_rfc_n2_l36, 2, 36, 2, 8);
-    //@ harness c07_rfc_n3_l72 tier=thorough shape="frame + count=3 payload 60 B (room for VER 4, SRV 32, NONC 4)" must_cover=COVER:accepted,COVER:rejected required=no
-    c07_rfc!(c07_rfc_n3_l72, 3, 72, 3, 8);
+    //@ harness c07_rfc_n2_l64 tier=quick shape="frame + count=2 payload 52 B (room for VER 4 + NONC 32); everything but magic and count symbolic" must_cover=COVER:accepted,COVER:rejected timeout=900 required=no
+    c07_rfc!(c07_rfc_n2_l64, 2, 64, 2, 8);
+    //@ harness c07_rfc_n3_l104 tier=thorough shape="frame + count=3 payload 92 B (room for VER 4, SRV 32, NONC 32)" must_cover=COVER:accepted,COVER:rejected required=no
+    c07_rfc!(c07_rfc_n3_l104, 3, 104, 3, 8);
 
     // ------------------------------------------------------------------ C12: version list / SRV, concrete layout, symbolic words
-    /// Framed request {VER (K words), [SRV (SL bytes)], NONC (4 bytes)} with the header concrete
+    /// Framed request {VER (K words), [SRV (SL bytes)], NONC (32 bytes)} with the header concrete
     /// and every VER word, every SRV byte, the expected SRV and the nonce symbolic.
     pub fn c12_body<const K: usize, const SL: usize, const L: usize>(with_srv: bool, sym_expected: bool) {
         let mut buf: [u8; L] = vany_bytes::<L>();
@@ -248,14 +262,17 @@ pub(crate) mod verif_request {
             j += 1;
         }
         let srv_ok = if with_srv { SL == 32 && eq32_at(&buf, srv_at, &expected) } else { true };
+        let nonce_len = L - vbase - 4 * K - if with_srv { SL } else { 0 };
+        let nonce_ok = nonce_len == 32;
         vcover!(r.is_ok(), "COVER:answered");
         vcover!(r.is_err(), "COVER:dropped");
         vassert!(!r.is_ok() || anywhere, "VERIF:C12:answered-only-if-version-list-contains-draft13");
-        vassert!(!(first4 && srv_ok) || r.is_ok(), "VERIF:C12:answered-when-draft13-among-first-four-and-srv-matches");
+        vassert!(!(first4 && srv_ok && nonce_ok) || r.is_ok(), "VERIF:C12:answered-when-draft13-among-first-four-and-srv-matches");
+        vassert!(nonce_ok || r.is_err(), "VERIF:C07:framed-request-with-a-nonce-that-is-not-32-bytes-dropped");
         vassert!(!(with_srv && !srv_ok) || r.is_err(), "VERIF:C12:dropped-when-srv-is-not-this-servers");
         if let Ok((nonce, ver)) = &r {
             vassert!(*ver == Version::RfcDraft13, "VERIF:C12:accepted-framed-request-is-draft13");
-            check_nonce(nonce, &buf, (L - 4, L));
+            check_nonce(nonce, &buf, (L - nonce_len, L));
         }
         core::mem::forget(r);
     }
@@ -271,29 +288,35 @@ pub(crate) mod verif_request {
             }
         };
     }
-    //@ family c12_ver props=C12,C07 mode=strict mod=request::verif_request needs=src/message.rs must_cover=COVER:dropped
+    //@ family c12_ver props=C12 mode=strict mod=request::verif_request needs=src/message.rs must_cover=COVER:dropped
     //@ harness c12_ver_k0 tier=quick shape="VER list of 0 words, no SRV"
-    c12_ver!(c12_ver_k0, 0, 0, 32, false, true, 8);
+    c12_ver!(c12_ver_k0, 0, 0, 60, false, true, 8);
     //@ harness c12_ver_k1 tier=quick shape="VER list of 1 symbolic word, no SRV" must_cover=COVER:answered,COVER:dropped
-    c12_ver!(c12_ver_k1, 1, 0, 36, false, true, 8);
+    c12_ver!(c12_ver_k1, 1, 0, 64, false, true, 8);
     //@ harness c12_ver_k3 tier=quick shape="VER list of 3 symbolic words, no SRV" must_cover=COVER:answered,COVER:dropped
-    c12_ver!(c12_ver_k3, 3, 0, 44, false, true, 8);
+    c12_ver!(c12_ver_k3, 3, 0, 72, false, true, 8);
     //@ harness c12_ver_k4 tier=thorough shape="VER list of 4 symbolic words, no SRV" must_cover=COVER:answered,COVER:dropped
-    c12_ver!(c12_ver_k4, 4, 0, 48, false, true, 8);
+    c12_ver!(c12_ver_k4, 4, 0, 76, false, true, 8);
     //@ harness c12_ver_k5 tier=quick shape="VER list of 5 symbolic words, no SRV" must_cover=COVER:answered,COVER:dropped
-    c12_ver!(c12_ver_k5, 5, 0, 52, false, true, 8);
+    c12_ver!(c12_ver_k5, 5, 0, 80, false, true, 8);
     //@ harness c12_ver_k6 tier=thorough shape="VER list of 6 symbolic words, no SRV" must_cover=COVER:answered,COVER:dropped
-    c12_ver!(c12_ver_k6, 6, 0, 56, false, true, 8);
+    c12_ver!(c12_ver_k6, 6, 0, 84, false, true, 8);
+    //@ harness c12_ver_k1_nonce36 tier=quick props=C12,C07 shape="VER 1 symbolic word, NONC of 36 bytes (too long), no SRV"
+    c12_ver!(c12_ver_k1_nonce36, 1, 0, 68, false, true, 8);
+    //@ harness c12_ver_k1_nonce64 tier=quick props=C12,C07 shape="VER 1 symbolic word, NONC of 64 bytes (classic size in a framed request), no SRV"
+    c12_ver!(c12_ver_k1_nonce64, 1, 0, 96, false, true, 8);
+    //@ harness c12_ver_k1_nonce28 tier=quick props=C12,C07 shape="VER 1 symbolic word, NONC of 28 bytes (too short), no SRV"
+    c12_ver!(c12_ver_k1_nonce28, 1, 0, 60, false, true, 8);
     //@ harness c12_srv32_k1 tier=thorough shape="VER 1 word + SRV 32 symbolic bytes vs symbolic expected SRV" must_cover=COVER:answered,COVER:dropped
-    c12_ver!(c12_srv32_k1, 1, 32, 76, true, true, 8);
+    c12_ver!(c12_srv32_k1, 1, 32, 104, true, true, 8);
     //@ harness c12_srv32_k1_fixed tier=thorough shape="VER 1 word + SRV 32 symbolic bytes vs a fixed expected SRV" must_cover=COVER:answered,COVER:dropped
-    c12_ver!(c12_srv32_k1_fixed, 1, 32, 76, true, false, 8);
+    c12_ver!(c12_srv32_k1_fixed, 1, 32, 104, true, false, 8);
     //@ harness c12_srv32_k2 tier=thorough shape="VER 2 words + SRV 32 symbolic bytes" must_cover=COVER:answered,COVER:dropped
-    c12_ver!(c12_srv32_k2, 2, 32, 80, true, true, 8);
+    c12_ver!(c12_srv32_k2, 2, 32, 108, true, true, 8);
     //@ harness c12_srv28_k1 tier=quick shape="VER 1 word + SRV of 28 bytes (wrong length)"
-    c12_ver!(c12_srv28_k1, 1, 28, 72, true, true, 8);
+    c12_ver!(c12_srv28_k1, 1, 28, 100, true, true, 8);
     //@ harness c12_srv36_k1 tier=thorough shape="VER 1 word + SRV of 36 bytes (wrong length)"
-    c12_ver!(c12_srv36_k1, 1, 36, 80, true, true, 8);
+    c12_ver!(c12_srv36_k1, 1, 36, 108, true, true, 8);
     //@ harness c12_srv0_k1 tier=quick shape="VER 1 word + empty SRV"
-    c12_ver!(c12_srv0_k1, 1, 0, 44, true, true, 8);
+    c12_ver!(c12_srv0_k1, 1, 0, 72, true, true, 8);
 }
